@@ -68,3 +68,19 @@ Theorem C11_pda_intersection_total : forall (Q G QD : Type) (E1 : EqDec Q) (E2 :
   forall n, (3 * (length (p_states P) * length (e_states D)) < 2 ^ n)%nat -> exists R, pda_inter P D n = Some R.
 Proof. exact (@pda_inter_total). Qed.
 Print Assumptions C11_pda_intersection_total.
+
+(* a Regex operand: to_epsilon_nfa (the counter-based construction, Model/Thompson.v), determinisation, then the product:
+   the result accepts exactly the words of the grammar / PDA that the expression denotes *)
+From PFL Require Import Spec.Regex Model.Thompson Proofs.Rational.
+Theorem C11_cfg_intersection_regex : forall (Vr : Type) (EV : EqDec Vr) (c : nat) (r : re) (n fuel : nat) (G : cfg Vr)
+    (D : enfa (list nat)) (R : cfg (bvar (list nat) (cvar Vr))),
+  determinize true (re_enfa_at c r) n = Some D -> cfg_inter fuel G D = Some R ->
+  forall w, LangG R w <-> LangG G w /\ den r w.
+Proof. exact (@cfg_inter_regex). Qed.
+Print Assumptions C11_cfg_intersection_regex.
+Theorem C11_pda_intersection_regex : forall (Q0 G0 : Type) (E1 : EqDec Q0) (E2 : EqDec G0) (c : nat) (r : re) (n m : nat) (P : pda Q0 G0)
+    (D : enfa (list nat)) (R : pda (Q0 * list nat) G0),
+  determinize true (re_enfa_at c r) n = Some D -> pda_inter P D m = Some R ->
+  forall w, acc_final R w <-> acc_final P w /\ den r w.
+Proof. exact (@pda_inter_regex). Qed.
+Print Assumptions C11_pda_intersection_regex.
